@@ -114,6 +114,8 @@ def run(P, R, tier):
     from rules import common as _common
     _common.forward(P, R, 'C08', ['C08.*'], 'C09.a', 'rows are indexed by their Hilbert distance (C08) against the frame total bounds', floor=10)
     _common.forward(P, R, 'C06', ['C06.b'], 'C09.a', 'the frame-level total bounds every partition measures against (Dask total_bounds)', floor=2)
+    _common.forward(P, R, 'C06', ['C06.d'], 'C09.a', 'the active geometry and the cached partition bounds the frame-level total bounds are reduced from', floor=4)
+    _common.forward(P, R, 'C13', ['C13.a', 'C13.b'], 'C09.a', 'each partition\'s total_bounds (and each row\'s bounds) are the extents of exactly its own rows', floor=10)
     # a filtered frame must not inherit the parent's cached partition bounds (they define the frame-level total_bounds)
     from rules import C12
     sub = type(R)(R.prop, R.tier)
